@@ -2,7 +2,9 @@
 
 Mirrors, as the code is now:
 * `core/raster.py` `Raster.__init__` : bbox enlarged by `margin` (relative, both widths read before any bound is
-  moved), `ncol = ceil(ax / rx)`, `nrow = ceil(ay / ry)`
+  moved), `ncol = max(1, ceil(ax / rx))`, `nrow = max(1, ceil(ay / ry))` (after the `fix:` commit bdf8515: a box of
+  zero width / height — all observations on one vertical / horizontal line, a single observation — gets one
+  column / one row)
 * `core/raster.py` `Raster.getCell`  : `None` outside `[xmin,xmax]×[ymin,ymax]`; `idx = (x-xmin)/rx`,
   `idy = (nrow-1) - (y-ymin)/ry`; column `floor(idx)`, but `floor(idx)-1` when `idx == ncol`; line `int(idy)` when
   `idy` is an integer `> -1`, `int(idy)+1` when it is the integer `-1`, else `floor(idy)+1`
@@ -48,7 +50,7 @@ def mkGrid (ceil : α → Int) (bx0 bx1 by0 by1 rx ry margin : α) : Grid α :=
   let ax := xmax - xmin
   let ay := ymax - ymin
   { xmin := xmin, xmax := xmax, ymin := ymin, ymax := ymax, rx := rx, ry := ry,
-    ncol := ceil (ax / rx), nrow := ceil (ay / ry) }
+    ncol := max 1 (ceil (ax / rx)), nrow := max 1 (ceil (ay / ry)) }
 
 /-- minimum / maximum of a non-empty list, scanning from the first element -/
 def minOf : List α → Option α
@@ -178,7 +180,8 @@ def aggregates (noData : α) (op : Op) (c : Cells (Option α)) : List (List α) 
   c.map (fun row => row.map (fun cell => (cellValue op cell).getD noData))
 
 /-- `summarize` for one feature: grid geometry from the observations, scatter, one aggregate grid per operator.
-    `none` = Python raised. A grid without rows makes `AFMap.__init__` raise (`grid[0]`). -/
+    `none` = Python raised. A grid without rows makes `AFMap.__init__` raise (`grid[0]`); since bdf8515 the
+    constructor never builds one (`nrow ≥ 1`), the test is kept because the code path is. -/
 def summarize (floor ceil : α → Int) (noData : α) (obs : List (α × α × Option α)) (rx ry margin : α) (ops : List Op) :
     Option (Grid α × List (List (List α))) :=
   match minOf (obs.map (·.1)), maxOf (obs.map (·.1)), minOf (obs.map (·.2.1)), maxOf (obs.map (·.2.1)) with
